@@ -9,8 +9,19 @@
    refuses (C16_multi_sample_refused) and no step exists. *)
 From Coq Require Import ZArith List Permutation.
 From Batchie Require Import Lib.Sexp Model.Policy Proofs.C16Policy Proofs.C16Hist Proofs.C16Select.
+From Batchie Require Import Generated.SrcPolicy Proofs.C16Source.
 Import ListNotations.
 Open Scope Z_scope.
+
+(* The model is what the source says NOW: `src_filter_eligible_plates` is the whole method
+   KPerSamplePlatePolicy.filter_eligible_plates of /repo's current working tree, re-translated statement by
+   statement on every run (harness/py2gal.py -> Generated/SrcPolicy.v: its five loops, the defaultdicts and
+   the set, the raise); it equals the hand-written model for ALL k, batch and remaining plates, so every
+   theorem below is a theorem about the translated source. *)
+Theorem C16_model_is_source : forall k batch remaining,
+  src_filter_eligible_plates k batch remaining = filter_eligible k batch remaining.
+Proof. exact src_filter_eligible_is_model. Qed.
+Print Assumptions C16_model_is_source.
 
 (* allowed plates = remaining plates restricted by some predicate: a subset, in the same order (every state) *)
 Theorem C16_eligible_subset : forall k b r el,
